@@ -101,7 +101,7 @@ impl SamplingConfig {
                 if !is_integer(division as _) {
                     return Err(SamplingConfigError::FreqInvalidF(freq));
                 }
-                Ok(division as _)
+                Ok(division.round() as _)
             }
             SamplingConfig::Period(duration) => {
                 use crate::defined::ULTRASOUND_PERIOD;
